@@ -85,6 +85,23 @@ func verifPlainDump(text string) (string, bool) {
 // by a key of the keyring must be accepted.  Input that does not start with the armour reports no signer.
 func VerifC11Signed(text string, signer, keyring, tamper, pos int, nb byte, viaDecoder bool) int {
 	doc := verifClearsign(text, signer)
+	if tamper == 1 && pos < 0 {
+		// replay of a counterexample found on the abstract armour, whose byte positions are not those of the real
+		// one: look for a substitution inside the real signature block that gives a non-zero verdict
+		start := strings.Index(doc, "-----BEGIN PGP SIGNATURE-----")
+		const b64 = "ABCDEFGHIJKLMNOPQRSTUVWXYZabcdefghijklmnopqrstuvwxyz0123456789+/="
+		for p := start; p >= 0 && p < len(doc); p++ {
+			for i := 0; i < len(b64); i++ {
+				if doc[p] == b64[i] || doc[p] == '\n' || doc[p] == '-' {
+					continue
+				}
+				if r := verifC11Check(doc[:p]+b64[i:i+1]+doc[p+1:], text, signer, keyring, tamper, viaDecoder); r != 0 {
+					return r
+				}
+			}
+		}
+		return 0
+	}
 	switch tamper {
 	case 1:
 		if pos >= len(doc) || doc[pos] == nb {
@@ -111,6 +128,13 @@ func VerifC11Signed(text string, signer, keyring, tamper, pos int, nb byte, viaD
 	case 6:
 		doc = "Evil: prepended\n\n" + doc
 	}
+	if r := verifC11Check(doc, text, signer, keyring, tamper, viaDecoder); r != 0 {
+		return r
+	}
+	return 0
+}
+
+func verifC11Check(doc, text string, signer, keyring, tamper int, viaDecoder bool) int {
 	kr := verifKeyring(keyring)
 	want, wok := verifPlainDump(text)
 	var r *ParagraphReader
@@ -166,6 +190,12 @@ func VerifC11Signed(text string, signer, keyring, tamper, pos int, nb byte, viaD
 	}
 	if !wok || got != want {
 		return 7 // something other than the signed text reached the caller
+	}
+	if tamper == 0 {
+		// the same bytes once more, with a keyring that holds no key: the earlier acceptance must not carry over
+		if _, err2 := NewParagraphReader(strings.NewReader(doc), verifKeyring(1)); err2 == nil {
+			return 8
+		}
 	}
 	return 0
 }
